@@ -19,7 +19,7 @@
 From Coq Require Import List ZArith Bool Arith.
 From Coercion.Base Require Import Plan.
 From Coercion.Engine Require Import Shape Event PlanSM Accept.
-From Coercion.C03 Require Import MonC03 MonC03Proofs SchedIndep.
+From Coercion.C03 Require Import MonC03 MonC03Proofs SchedIndep MonMeaning.
 From Coercion.Limiter Require Limiter LimiterExamples.
 From Coercion.Limiter Require Mechanisms.
 Import ListNotations.
@@ -48,6 +48,22 @@ Theorem c03_release :
       (m_bst m = Failed -> fin_is fin OPlan Failed = true).
 Proof. exact c03_release_l. Qed.
 Print Assumptions c03_release.
+
+(* what acceptance by the monitor means, in plain arithmetic, for every accepted trace (and every prefix: run is
+   prefix-closed): for the block m_cur the monitor is in, with f = n_failed m and I = in_flight m counted from the
+   sequence writes of the trace:  f <= tol + conc;  a block written Failed has nothing in flight and a cause
+   (f > tol >= 0, or one of its pre/cont/post/deferred groups written Failed, or the plan's continuous group written
+   Failed);  a block written Completed has nothing in flight, f <= tol (or tol < 0) and no Failed group. *)
+Theorem c03_bound_and_verdict :
+  forall (sh : shape) (tr : list event) (s : st),
+    run sh init tr = Some s ->
+    exists m : mst, mon_run sh m0 tr = Some m /\
+      forall (c : nat) (bs : bshape), m_cur m = Some c -> block_of sh c = Some bs ->
+        ((bs_tol bs < 0)%Z \/ (Z.of_nat (n_failed m) <= bs_tol bs + Z.of_nat (bs_conc bs))%Z) /\
+        (m_bst m = Failed -> in_flight m = 0 /\ (exceeded_m bs m = true \/ m_chk m = true \/ m_pcont m = true)) /\
+        (m_bst m = Completed -> in_flight m = 0 /\ exceeded_m bs m = false /\ m_chk m = false).
+Proof. exact c03_bound_and_verdict_l. Qed.
+Print Assumptions c03_bound_and_verdict.
 
 (* block_verdict_schedule_independent at the level of the observable automaton.  tr is any accepted trace (any
    schedule: order of launches and completions, interleaving with check runs, re-writes); the next event is the
